@@ -295,4 +295,21 @@ def nDischarge (s : NSt) (incoming out : NAsm) (track : Bool) : NSt × NAsm × N
   let (s2, inc'') := nCoreAdd s1 inc'
   (s2, inc'', out')
 
+/-! ### `SpentFuelPool._getNextLocation` (where a discharged assembly is dropped when no location is given) -/
+
+/-- the pool cell with running index `idx` in a pool with `nc` columns: `j = idx // nc`, `i = idx % nc` -/
+def poolCell (nc idx : Nat) : Int × Int := ((idx % nc : Nat), (idx / nc : Nat))
+
+/-- `for idx in itertools.count(): ... if loc not in filledLocations: return loc`, searched up to `fuel` indices
+from `idx` on (the loop always ends within `len(filled) + 1` steps, `Props/C14.sfpNext_free`) -/
+def sfpSearch (nc : Nat) (filled : List (Int × Int)) : Nat → Nat → Option (Int × Int)
+  | 0, _ => none
+  | fuel + 1, idx =>
+    if poolCell nc idx ∈ filled then sfpSearch nc filled fuel (idx + 1) else some (poolCell nc idx)
+
+/-- `SpentFuelPool._getNextLocation()` with `filled` = the (i, j) of the assemblies in the pool -/
+def sfpNext (nc : Nat) (filled : List (Int × Int)) : Option (Int × Int) :=
+  if nc = 0 then none   -- `idx // self.numColumns`: ZeroDivisionError
+  else sfpSearch nc filled (filled.length + 1) 0
+
 end ArmiVerif.Shuffle
